@@ -148,6 +148,45 @@ Theorem C09_defaults :
 Proof. exact defaults. Qed.
 Print Assumptions C09_defaults.
 
+(** Client to backend, the values that denote no request (an unknown test or
+    match-type string, is-not-defined next to other conditions): either nothing is sent,
+    or the document is one the RFC reader rejects and the server refuses with 400. *)
+Theorem C09_client_inexpressible_refused : forall up path q,
+  den_query q = None ->
+  client_query_doc q = Err 0 \/
+  exists d, client_query_doc q = Ok d /\ rfc_read d = None /\ handle_report up path d = Err 400.
+Proof. exact client_inexpressible_refused. Qed.
+Print Assumptions C09_client_inexpressible_refused.
+
+(** What the RFC reader makes of whatever the client sends for a query. *)
+Theorem C09_client_query_reads : forall q d,
+  client_query_doc q = Ok d ->
+  rfc_read d = match den_query q with Some r => Some (RQuery r) | None => None end.
+Proof. exact client_query_reads. Qed.
+Print Assumptions C09_client_query_reads.
+
+(** The executable specifications evaluated by the oracle accept the model: an
+    implementation that agrees with the model meets them - always on the client side,
+    and on the server side for every document the reference reads, outside the selector
+    of the known finding; and for every document with an invalid enumeration value. *)
+Theorem C09_agree_implies_spec_client : forall us i o,
+  client_agrees us i o = true -> client_spec_ok us i o = true.
+Proof. exact client_agree_implies_spec. Qed.
+Print Assumptions C09_agree_implies_spec_client.
+
+Theorem C09_agree_implies_spec_server : forall up path x d o r,
+  validate x = Some r -> rfc_read d = Some r ->
+  server_agrees up path d o = true ->
+  kf_nsdecl up path x d o = false -> server_spec_ok up path x d o = true.
+Proof. exact server_kf_or_spec. Qed.
+Print Assumptions C09_agree_implies_spec_server.
+
+Theorem C09_agree_implies_spec_server_bad_enum : forall up path x d o,
+  validate x = None -> doc_bad_enum d = true ->
+  server_agrees up path d o = true -> server_spec_ok up path x d o = true.
+Proof. exact server_agree_implies_spec_bad_enum. Qed.
+Print Assumptions C09_agree_implies_spec_server_bad_enum.
+
 (** Known finding C09-nsdecl-as-attribute: the hypothesis [collides d = false] is
     needed.  Two conformant documents (lexical variants of written requests) on which
     the server does what the model says and not what the document denotes: one is
